@@ -33,7 +33,34 @@ open PynguinModel.Literals
 structure TypeId where
   module : String
   qual : List String
+  /-- Which of the class objects with this `__module__` and `__qualname__`: class objects are
+  compared by identity (`owner is typ`, `isinstance`), and names do not determine the object — a
+  module can define a class twice, rebind the name, and a function creates a new class per call.
+  `0` = the first one. -/
+  serial : Nat
   deriving DecidableEq, Repr, Inhabited
+
+/-- An object that attribute access can reach, by identity: a class object, or anything else (a
+module, a function, an instance, a wrapper object …). -/
+inductive PyRef where
+  | cls (t : TypeId)
+  | other (n : Nat)
+  deriving DecidableEq, Repr, Inhabited
+
+/-- The interpreter state that name resolution looks at. -/
+structure World where
+  /-- `getattr(obj, name, None)`: `none` = no such attribute, or the attribute is `None` -/
+  getattr : PyRef → String → Option PyRef
+  /-- the `builtins` module -/
+  builtins : PyRef
+
+/-- `for part in parts: owner = getattr(owner, part, None); if owner is None: return False`. -/
+def World.walk (w : World) : PyRef → List String → Option PyRef
+  | o, [] => some o
+  | o, p :: ps =>
+      match w.getattr o p with
+      | some o' => w.walk o' ps
+      | none => none
 
 /-- `".".join(parts)`. -/
 def joinDots : List String → String
@@ -44,7 +71,7 @@ def joinDots : List String → String
 /-- `f"{module}.{qualname}"`. -/
 def TypeId.fullName (t : TypeId) : String := t.module ++ "." ++ joinDots t.qual
 
-def builtinType (name : String) : TypeId := ⟨"builtins", [name]⟩
+def builtinType (name : String) : TypeId := ⟨"builtins", [name], 0⟩
 
 /-- The values an assertion can be made on. -/
 inductive AVal where
@@ -70,7 +97,7 @@ def AVal.typeOf : AVal → TypeId
   | .none => builtinType "NoneType" | .bool _ => builtinType "bool" | .int _ => builtinType "int"
   | .float _ => builtinType "float" | .complex _ _ => builtinType "complex"
   | .str _ => builtinType "str" | .bytes _ => builtinType "bytes"
-  | .enum cls _ => ⟨"<enum module>", [cls]⟩
+  | .enum cls _ => ⟨"<enum module>", [cls], 0⟩
   | .obj ty _ => ty
   | .list _ => builtinType "list" | .tuple _ => builtinType "tuple" | .set _ => builtinType "set"
   | .dict _ => builtinType "dict"
@@ -256,8 +283,10 @@ structure Namespace where
   vars : List (String × AVal)
   /-- enum classes bound under their bare class name -/
   enumClasses : List String
-  /-- what a dotted path of names evaluates to, when it is a class object -/
-  types : List (List String × TypeId)
+  /-- names bound to objects that are not values of the test: `import <module> as <alias>` -/
+  globals : List (String × PyRef)
+  /-- the interpreter state: attribute access, the `builtins` module -/
+  world : World
   /-- `import pytest` is present -/
   hasPytest : Bool
 
@@ -265,9 +294,17 @@ def lookup {α} (k : String) : List (String × α) → Option α
   | [] => none
   | (k', v) :: r => if k = k' then some v else lookup k r
 
-def lookupPath (p : List String) : List (List String × TypeId) → Option TypeId
+/-- What a dotted path `n.a.b` evaluates to: the first name is a global of the file or, if it is not
+bound there, a name of `builtins`; the rest is attribute access (`none` = `NameError` /
+`AttributeError`, or the value is `None`). -/
+def Namespace.resolve (ns : Namespace) : List String → Option PyRef
   | [] => none
-  | (p', t) :: r => if p = p' then some t else lookupPath p r
+  | n :: rest =>
+      match (match lookup n ns.globals with
+             | some o => some o
+             | none => ns.world.getattr ns.world.builtins n) with
+      | some o => ns.world.walk o rest
+      | none => none
 
 /-- `a.b.c` → `["a", "b", "c"]`. -/
 def exprPath : Expr → Option (List String)
@@ -396,8 +433,9 @@ def evalStmt (ns : Namespace) : Stmt → Option Bool
       else none
   | .typeName v expected => (aeval ns v).map (fun x => x.typeOf.fullName == expected)
   | .isInstance v ty =>
-      match aeval ns v, (exprPath ty).bind (fun p => lookupPath p ns.types) with
-      | some x, some t => some (instanceOf x t)
+      -- `isinstance(x, <not a class>)` raises `TypeError`
+      match aeval ns v, (exprPath ty).bind ns.resolve with
+      | some x, some (.cls t) => some (instanceOf x t)
       | _, _ => none
   | .len v n =>
       match aeval ns v, aeval ns n with
@@ -409,13 +447,31 @@ def evalStmt (ns : Namespace) : Stmt → Option Bool
 structure TypeEnv where
   /-- `config.configuration.module_name` -/
   moduleName : String
-  /-- walking `__qualname__` from `builtins` / the module under test reaches the class itself -/
-  resolves : TypeId → Bool
+  /-- the interpreter state the observer runs in -/
+  world : World
+  /-- `sys.modules.get(module_name)` -/
+  sutModule : Option PyRef
 
-/-- `_is_type_importable` (repaired): builtins or the module under test, *and* the qualified name
-resolves to the class. -/
+/-- Where `_is_type_importable` starts walking: `builtins`, the module under test, or nowhere. -/
+def typeOwner (te : TypeEnv) (t : TypeId) : Option PyRef :=
+  if t.module == "builtins" then some te.world.builtins
+  else if t.module == te.moduleName then te.sutModule
+  else none
+
+/-- `_is_type_importable` (repaired): builtins or the module under test, *and* walking the qualified
+name from there reaches the class object itself (`return owner is typ`). -/
 def isTypeImportable (te : TypeEnv) (t : TypeId) : Bool :=
-  (t.module == "builtins" || t.module == te.moduleName) && te.resolves t
+  match typeOwner te t with
+  | some o => te.world.walk o t.qual == some (.cls t)
+  | none => false
+
+/-- NOT what the code does: accept the type as soon as its qualified name resolves to *anything*
+(`operator.attrgetter(qualname)(owner)` does not raise) — the identity test is what makes the
+rendered reference denote the observed value's class. -/
+def isTypeImportableByName (te : TypeEnv) (t : TypeId) : Bool :=
+  match typeOwner te t with
+  | some o => (te.world.walk o t.qual).isSome
+  | none => false
 
 /-- `_is_type_importable` on the unchanged tree. -/
 def isTypeImportableOld (te : TypeEnv) (t : TypeId) : Bool :=
